@@ -333,7 +333,7 @@ namespace
       int valid_variants = 0;   // ops that turn a valid file into another valid file
       for(int k = 0; k < nops; ++k)
       {
-        int kind = int(sim::cfg_weighted(("fault_kind" + std::to_string(k)).c_str(), {4, 2, 1, 1, 3, 3, 3, 2, 2, 2, 2, 3, 2, 3, 2, 2, 1, 2, 2, 2}));
+        int kind = int(sim::cfg_weighted(("fault_kind" + std::to_string(k)).c_str(), {4, 2, 1, 1, 3, 3, 3, 2, 2, 2, 2, 3, 2, 3, 2, 2, 1, 2, 2, 2, 3}));
         int bias = int(sim::cfg_int(("fault_bias" + std::to_string(k)).c_str(), 0, 1));
         switch(kind)
         {
@@ -357,6 +357,7 @@ namespace
         case 17: chart_index_out_of_range(bf, log); break;
         case 18: if(part_parent_topology(bf, log)) ++valid_variants; break;
         case 19: if(parts_before_mesh(bf, log)) ++valid_variants; break;
+        case 20: sign_flip(bf, log); break;
         }
       }
       size_t eof_limit = size_t(-1);
@@ -613,6 +614,46 @@ namespace
         for(const char* n : numeric) if(name == n) { log.must_reject = true; log.why += "the numeric attribute '" + name + "' got seven components; "; }
       }
       sim::count_fault("ATTR_CHANGE");
+    }
+
+    // one numeric component of an attribute gets a minus sign (a one-byte insertion). Robustness only: many attributes may
+    // legitimately be negative (midpoints, origins), others must not (radii, counts, levels) - whether the parser accepts
+    // or rejects is its business, but it must do one of the two, and what it accepts must be valid and re-writable.
+    static void sign_flip(Bytes& b, simfs::FaultLog& log)
+    {
+      std::string s(b.begin(), b.end());
+      struct Num { size_t at; bool chart; };
+      std::vector<Num> nums;
+      for(size_t p = s.find('<'); p != std::string::npos; p = s.find('<', p + 1))
+      {
+        if(p + 1 >= s.size() || !isalpha((unsigned char)s[p + 1])) continue;
+        size_t e = s.find('>', p), nl = s.find('\n', p);
+        if(e == std::string::npos || (nl != std::string::npos && nl < e)) continue;
+        for(size_t q = s.find("=\"", p); q != std::string::npos && q < e; q = s.find("=\"", q + 1))
+        {
+          size_t nb = q; while(nb > p && (isalnum((unsigned char)s[nb - 1]) || s[nb - 1] == '_')) --nb;
+          size_t ve = s.find('"', q + 2);
+          if(ve == std::string::npos || ve > e || nb == q) break;
+          const std::string name = s.substr(nb, q - nb);
+          const bool chart = (name == "radius" || name == "midpoint" || name == "domain" || name == "origin" || name == "offset" || name == "angles" || name == "transform");
+          // start of every component that begins with a digit or a dot
+          for(size_t i = q + 2; i < ve; ++i)
+            if((isdigit((unsigned char)s[i]) || s[i] == '.') && (i == q + 2 || s[i - 1] == ' ')) nums.push_back({i, chart});
+          q = ve;
+        }
+      }
+      if(nums.empty()) return;
+      if(simfs::pick(2, "sign_chart_only") == 0)
+      {
+        std::vector<Num> ch;
+        for(const Num& x : nums) if(x.chart) ch.push_back(x);
+        if(!ch.empty()) nums.swap(ch);
+      }
+      const Num n = nums[simfs::pick(nums.size(), "sign_at")];
+      s.insert(n.at, "-");
+      b.assign(s.begin(), s.end());
+      log.ops += "SIGN_FLIP(" + std::to_string(n.at) + ") ";
+      sim::count_fault("SIGN_FLIP");
     }
 
     // an element loses its content and terminator and becomes a closed markup <x ... /> (what remains when the extent
